@@ -1,7 +1,7 @@
 ---------------------------- MODULE ParseSessionMC ----------------------------
 EXTENDS ParseSession, Json
 CONSTANT Emit, SameObjOnlyFrom   \* call sequences longer than this use a single object
-AllInputs == {"elev", "veh3", "fallback3", "dates", "nyct", "plain", "static-a", "static-b"}
+AllInputs == {"elev", "veh3", "fallback3", "dates", "nyct", "plain", "conflict", "static-a", "static-b", "static-missingcols"}
 AllObjs == {"noext-utc", "noext-ny", "nycttrips", "alerts-complex", "alerts-none"}
 Shaped == Len(calls) <= SameObjOnlyFrom \/ \A a, b \in DOMAIN calls : calls[a].obj = calls[b].obj
 NextShaped == Next /\ (Len(calls') <= SameObjOnlyFrom \/ \A a, b \in DOMAIN calls' : calls'[a].obj = calls'[b].obj)
